@@ -91,6 +91,11 @@ CLAIMED = {
    note="Float rounding, the 1e-12/isclose tolerances and :.8g formatting are not modelled (partial w.r.t. floats). The step from 'coefficients agree' to the implementation's dictionary comparison in __eq__ is compared per run, not proved. No axioms.",
    technique="Coq proofs of matrix semantics incl. linear independence + exact term-level correspondence",
    design="6 C12"),
+ "C13": dict(
+   text="Proof + exact differential exploration. Model/Decomp.v: Pauli-order vectorisation, the butterfly (block-recursive, with the source's strided loop as a second executable form compared on every case), diagonal variant, index conventions, weight table, shape validation; integer numerators (2^n x the source's vector). Proved for every n and every matrix over Z[i]: the entry a string looks up is tr(M(P)A) (C13_coeff); the weights reconstruct the matrix (C13_reconstruct); diagonal variant = general one on diagonal matrices, X/Y strings weigh 0; weight table = number of non-identity letters at the string's index; accepted shapes. Per run: matrices with Gaussian-integer entries (dense, sparse, Hermitian, Pauli, diagonal) n<=4 (6): 2^n*w exactly vs the model; for n<=3 every string as key: reconstruction and trace formula on the implementation's own matrices; weight tables; entropy vs defining sum; rejection table.",
+   note="Equality of the iterative strided loop and the block-recursive butterfly is checked by execution on every case, not proved. log2 and float rounding in entropy/influence not modelled (partial w.r.t. floats). No axioms.",
+   technique="Coq induction over the first qubit (block recursion) + exact dyadic comparison with the implementation",
+   design="6 C13"),
  "C04": dict(
    text="Proof: Coq theorems C04_product/commute/adjoint/conj/reject hold for every n and every pair of strings, about a bit-level model of PauliString.sign/commutes_with/multiply/adjoint_map/complex_conj and the Kronecker-product matrices over Z[i]. The model is tied to /repo on every run by a correspondence run: all 16^n pairs n<=3 (n<=4 thorough) plus random pairs up to n=64 and all length mismatches, implementation vs extracted model, and numpy matrices multiplied out for n<=3.",
    note="Trusted: Coq kernel, extraction (ExtrOcamlBasic), OCaml driver, Python harness; numpy kron/@ taken as the matrices. No axioms (Print Assumptions: closed).",
